@@ -207,6 +207,10 @@ func (x *zzC12) enabled() []string {
 			}
 		}
 	}
+	if !w.frozen && w.linkUps < 6 {
+		// appended after the ops older tapes know
+		ops = append(ops, "link-up")
+	}
 	// close triggers are the rarer choice (a zeroed draw means none)
 	if !x.r.Chance(1, 3) {
 		return ops
@@ -249,6 +253,11 @@ func (x *zzC12) apply(op string) {
 		x.block(1)
 	case "skip":
 		x.block(2 + r.Draw(6))
+	case "link-up":
+		w.nextStim("the channel's link comes up (peer reconnected)")
+		w.linkUps++
+		w.linkUp()
+		r.Count("probe_link_came_up_again")
 	case "proto-sign":
 		w.nextStim("we sign a new remote commitment")
 		m.signRemote(r.Draw, w.height)
